@@ -1,11 +1,20 @@
 package event
 
+import "sync"
+
 type EventFn[T any] func(data T)
 
 type Unsubscribe func()
 
+type subscription[T any] struct {
+	id int
+	fn EventFn[T]
+}
+
 type Event[T any] struct {
-	subscribers []EventFn[T]
+	mu          sync.Mutex
+	subscribers []subscription[T]
+	nextID      int
 }
 
 func New[T any]() *Event[T] {
@@ -14,10 +23,29 @@ func New[T any]() *Event[T] {
 
 // Adds a subscriber to the event.
 func (e *Event[T]) Subscribe(fn EventFn[T]) Unsubscribe {
-	index := len(e.subscribers)
-	e.subscribers = append(e.subscribers, fn)
+	e.mu.Lock()
+	defer e.mu.Unlock()
+
+	// Subscribers are identified by an id, not by their position: positions shift when
+	// an earlier subscriber is removed.
+	id := e.nextID
+	e.nextID++
+	e.subscribers = append(e.subscribers, subscription[T]{id: id, fn: fn})
+
 	return func() {
-		e.subscribers = append(e.subscribers[:index], e.subscribers[index+1:]...)
+		e.mu.Lock()
+		defer e.mu.Unlock()
+
+		for i, sub := range e.subscribers {
+			if sub.id == id {
+				// Build a new slice so that a Fire that is iterating over the old one is not disturbed.
+				remaining := make([]subscription[T], 0, len(e.subscribers)-1)
+				remaining = append(remaining, e.subscribers[:i]...)
+				remaining = append(remaining, e.subscribers[i+1:]...)
+				e.subscribers = remaining
+				return
+			}
+		}
 	}
 }
 
@@ -25,7 +53,11 @@ func (e *Event[T]) Subscribe(fn EventFn[T]) Unsubscribe {
 // NOTE: The subscribers are notified in separate goroutines,
 // so be aware of potential race conditions.
 func (e *Event[T]) Fire(data T) {
-	for _, subscriber := range e.subscribers {
-		go subscriber(data)
+	e.mu.Lock()
+	subscribers := e.subscribers
+	e.mu.Unlock()
+
+	for _, subscriber := range subscribers {
+		go subscriber.fn(data)
 	}
 }
